@@ -32,7 +32,11 @@ except:
     pass
 
 
-def toposort2(data):
+def toposort2(data, key=repr):
+    """Yields the items of the dependency graph ``data`` level by level. The
+    items of a level come sorted by ``key``, which must not tie for the result
+    to be reproducible (the levels are sets)."""
+
     if len(data) == 0:
         return
 
@@ -47,7 +51,7 @@ def toposort2(data):
         ordered = set(item for item,dep in data.items() if len(dep) == 0)
         if len(ordered) == 0:
             break
-        yield sorted(ordered, key=lambda x:repr(x))
+        yield sorted(ordered, key=key)
         data = dict([(item, (dep - ordered)) for item,dep in data.items()
                                                         if item not in ordered])
 
